@@ -66,7 +66,9 @@ Section ABF.
     s_eng : vec;                      (* engine: force that acted on each variable at the previous step *)
     s_fj : vec;                       (* colvar::fj of each variable as left by the previous step *)
     s_rel : Z;                        (* cvm::step_relative() *)
-    s_started : bool                  (* engine: a step was already made *)
+    s_started : bool;                 (* engine: a step was already made *)
+    s_japp : list bool                (* colvar::prev_Jacobian_force_compensated of each variable: the force applied at the
+                                         previous step contained the compensation -fj (hideJacobian and f_cv_apply_force) *)
   }.
 
   Record abf_in := mkIn {
@@ -158,15 +160,18 @@ Section ABF.
      a variable without f_cv_apply_force never applied it).
      In the lagged convention fj is still the one of the previous step (collect_cvc_total_forces runs
      before collect_cvc_Jacobians) *)
-  Definition addj (c : abf_cfg) (i : abf_in) (k : nat) : bool :=
-    negb (c_hidej c && (bget (c_subtract c) k || c_same_step c || negb (cvapply c i k))).
+  Definition addj (c : abf_cfg) (s : abf_state) (k : nat) : bool :=
+    negb (c_hidej c && (bget (c_subtract c) k || c_same_step c || negb (bget (s_japp s) k))).
+  (* colvar::end_of_step *)
+  Definition st_japp (c : abf_cfg) (i : abf_in) : list bool :=
+    map (fun k => c_hidej c && cvapply c i k) (seq 0 (c_nd c)).
   Definition st_ft0 (c : abf_cfg) (s : abf_state) (i : abf_in) : vec :=
     vbuild (c_nd c) (fun k =>
       if c_update c || bget (c_subtract c) k
       then (if c_same_step c
-            then (if addj c i k then nadd O (vget (i_e i) k) (vget (i_j i) k) else vget (i_e i) k)
+            then (if addj c s k then nadd O (vget (i_e i) k) (vget (i_j i) k) else vget (i_e i) k)
             else if 0 <? fst (st_clk s i)
-                 then (if addj c i k then nadd O (vget (s_eng s) k) (vget (s_fj s) k) else vget (s_eng s) k)
+                 then (if addj c s k then nadd O (vget (s_eng s) k) (vget (s_fj s) k) else vget (s_eng s) k)
                  else vget (s_ft s) k)
       else vget (s_ft s) k).
 
@@ -235,13 +240,20 @@ Section ABF.
 
   Definition abf_step (c : abf_cfg) (s : abf_state) (i : abf_in) : abf_state * abf_out :=
     (mkSt (st_cnt c s i) (st_sum c s i) (st_bin c i) (st_bin c i) (st_fabf c s i) (st_fapp c s i) (st_ft c s i)
-          (st_fold c s i) (st_eng c s i) (st_fj c i) (fst (st_clk s i)) true,
+          (st_fold c s i) (st_eng c s i) (st_fj c i) (fst (st_clk s i)) true (st_japp c i),
      mkOut (st_bin c i) (st_fabf c s i) (st_fapp c s i) (st_f c s i) (fst (st_clk s i)) (snd (st_clk s i)) (st_ft c s i)).
 
+  (* colvarbias_abf::init: bin := 0, force_bin := -1 (outside of every grid: no bin has been recorded yet) *)
   Definition abf_init (c : abf_cfg) : abf_state :=
     let nd := c_nd c in
-    mkSt (fun _ => 0) (fun _ => vzero nd) (repeat 0 nd) (repeat 0 nd)
-         (vzero nd) (vzero nd) (vzero nd) (vzero nd) (vzero nd) (vzero nd) 0 false.
+    mkSt (fun _ => 0) (fun _ => vzero nd) (repeat 0 nd) (repeat (-1) nd)
+         (vzero nd) (vzero nd) (vzero nd) (vzero nd) (vzero nd) (vzero nd) 0 false [].
+  (* the bias is defined (a second `config`) while the simulation is running: the engine has made steps,
+     the last one with step_relative = rel *)
+  Definition abf_init_late (c : abf_cfg) (rel : Z) : abf_state :=
+    let nd := c_nd c in
+    mkSt (fun _ => 0) (fun _ => vzero nd) (repeat 0 nd) (repeat (-1) nd)
+         (vzero nd) (vzero nd) (vzero nd) (vzero nd) (vzero nd) (vzero nd) rel true [].
 
   Fixpoint abf_run_from (c : abf_cfg) (s : abf_state) (h : list abf_in) : abf_state * list abf_out :=
     match h with
@@ -252,6 +264,38 @@ Section ABF.
     end.
   Definition abf_run (c : abf_cfg) (h : list abf_in) := abf_run_from c (abf_init c) h.
 
+  (* ---- timeStepFactor k > 1 on the bias and its variables (impulse multiple time stepping; only available with
+     same-step total forces: colvar.cpp excludes f_cv_multiple_ts with lagged total forces).
+     colvarmodule::calc_colvars: bias and variables are awake at the steps whose number is a multiple of k, asleep
+     otherwise: then update() is not called, the variables are not computed, colvar::f is reset to 0 and nothing is
+     applied.  At an awake step colvarbias::communicate_forces hands k * colvar_forces * factor to the variables and
+     colvar::update_forces_energy subtracts k * fj with hideJacobian.
+     [abf_mstep] reuses [abf_step] for the grids, bin, force_bin, ABF force and total force; the fields of the state
+     that only the lagged convention reads (s_eng, s_fold, s_fprev) are not meaningful here. *)
+  Definition awake (k : Z) (clk : Z * bool) : bool := (k <=? 1) || (fst clk mod k =? 0).
+  Definition abf_sleep (c : abf_cfg) (s : abf_state) (i : abf_in) : abf_state * abf_out :=
+    (mkSt (s_cnt s) (s_sum s) (s_bin s) (s_fbin s) (s_fabf s) (s_fprev s) (s_ft s) (s_fold s) (s_eng s) (s_fj s)
+          (fst (st_clk s i)) true (s_japp s),
+     mkOut (s_bin s) (s_fabf s) (vzero (c_nd c)) (vzero (c_nd c)) (fst (st_clk s i)) (snd (st_clk s i)) (s_ft s)).
+  Definition mts_out (c : abf_cfg) (k : Z) (i : abf_in) (o : abf_out) : abf_out :=
+    let fapp := vbuild (c_nd c) (fun d => nmul O (nmul O (nofZ O k) (vget (o_fabf o) d)) (sfac c (st_bin c i))) in
+    mkOut (o_bin o) (o_fabf o) fapp
+          (vbuild (c_nd c) (fun d =>
+             let fb := nadd O (vget fapp d) (oeff c i d) in
+             if c_hidej c && cvapply c i d then nsub O fb (nmul O (vget (i_j i) d) (nofZ O k)) else fb))
+          (o_rel o) (o_cont o) (o_tf o).
+  Definition abf_mstep (c : abf_cfg) (k : Z) (s : abf_state) (i : abf_in) : abf_state * abf_out :=
+    if awake k (st_clk s i)
+    then (fst (abf_step c s i), mts_out c k i (snd (abf_step c s i)))
+    else abf_sleep c s i.
+  Fixpoint abf_mrun_from (c : abf_cfg) (k : Z) (s : abf_state) (h : list abf_in) : abf_state * list abf_out :=
+    match h with
+    | [] => (s, [])
+    | i :: r => let so := abf_mstep c k s i in
+                let ro := abf_mrun_from c k (fst so) r in
+                (fst ro, snd so :: snd ro)
+    end.
+
   (* inputPrefix: colvarbias_abf::read_gradients_samples adds the counts of the .count file to `samples` and,
      for the .grad file, gradient * (count read) to `gradients` (colvar_grid_gradient::value_input with add).
      One data set per prefix of the inputPrefix list, added in order. *)
@@ -259,7 +303,7 @@ Section ABF.
   Definition abf_add_data (c : abf_cfg) (s : abf_state) (d : dataset) : abf_state :=
     mkSt (fun b => s_cnt s b + fst d b)
          (fun b => vbuild (c_nd c) (fun k => nadd O (vget (s_sum s b) k) (nmul O (vget (snd d b) k) (nofZ O (fst d b)))))
-         (s_bin s) (s_fbin s) (s_fabf s) (s_fprev s) (s_ft s) (s_fold s) (s_eng s) (s_fj s) (s_rel s) (s_started s).
+         (s_bin s) (s_fbin s) (s_fabf s) (s_fprev s) (s_ft s) (s_fold s) (s_eng s) (s_fj s) (s_rel s) (s_started s) (s_japp s).
   Definition abf_init_data (c : abf_cfg) (l : list dataset) : abf_state :=
     fold_left (abf_add_data c) l (abf_init c).
   Definition abf_run_data (c : abf_cfg) (l : list dataset) (h : list abf_in) :=
@@ -274,7 +318,7 @@ Section ABF.
   Definition abf_set_grids (c : abf_cfg) (s : abf_state) (d : dataset) (rel : Z) : abf_state :=
     mkSt (fst d)
          (fun b => vbuild (c_nd c) (fun k => nmul O (vget (snd d b) k) (nofZ O (fst d b))))
-         (s_bin s) (s_fbin s) (s_fabf s) (s_fprev s) (s_ft s) (s_fold s) (s_eng s) (s_fj s) rel (s_started s).
+         (s_bin s) (s_fbin s) (s_fabf s) (s_fprev s) (s_ft s) (s_fold s) (s_eng s) (s_fj s) rel (s_started s) (s_japp s).
   Inductive abf_event :=
   | EvStep (i : abf_in)
   | EvRestart (d : dataset)
@@ -348,6 +392,10 @@ Section ABF.
   Definition fsum_of (k : nat) (b : idx) (S : list (idx * vec)) : T :=
     gsum (map (fun v => vget v k) (samples_in b S)).
   (* the trace of a history: the history zipped with what the model reports at each step *)
+  (* timeStepFactor k: a step of the history yields a sample only if the bias is awake at it *)
+  Definition attributed_mts (c : abf_cfg) (k : Z) (tr : trace) : list (idx * vec) :=
+    map (fun d => (fst (fst d), snd (fst d)))
+        (filter (fun d => awake k (snd d) && eligible c (snd d) && index_ok c (fst (fst d))) (deliveries_same c tr)).
   Definition trace_from (c : abf_cfg) (s : abf_state) (h : list abf_in) : trace := combine h (snd (abf_run_from c s h)).
   Definition trace_of (c : abf_cfg) (h : list abf_in) : trace := trace_from c (abf_init c) h.
 End ABF.
